@@ -7,11 +7,11 @@ use dv_core::runner::{Case, Stats, Verdict};
 use dv_core::trace::Event;
 use serde_json::json;
 
-pub fn test(reg: &Reg, case: &Case, stats: Option<&mut Stats>) -> Verdict {
+pub fn test(reg: &Reg, case: &Case, mut stats: Option<&mut Stats>) -> Verdict {
     let e = &reg.entries[case.ty];
     let src = src_for(case);
     let out = oracles::run(e, &case.payload, src, &case.script);
-    if let Some(st) = stats {
+    if let Some(st) = stats.as_deref_mut() {
         st.executions += 1;
         let reports: Vec<usize> =
             out.trace.iter().filter_map(|ev| if let Event::Report { loc, .. } = ev { Some(loc.len()) } else { None }).collect();
@@ -49,10 +49,25 @@ pub fn test(reg: &Reg, case: &Case, stats: Option<&mut Stats>) -> Verdict {
             ));
         }
     }
-    match oracles::c01(e, &case.payload, &out) {
-        Ok(()) => Verdict::Ok,
-        Err((sig, what)) => Verdict::Violation(sig, json!({"what": what, "history": dv_core::trace::show_trace(&out.trace)})),
+    if let Err((sig, what)) = oracles::c01(e, &case.payload, &out) {
+        return Verdict::Violation(sig, json!({"what": what, "script": case.script.show(), "history": dv_core::trace::show_trace(&out.trace)}));
     }
+    // every answer sequence when few decisions are involved (exhaustive over 2^n scripts, n <= 5)
+    let n = dv_core::trace::n_decisions(&out.trace);
+    if case.aux & 4 == 0 && n >= 2 && n <= 5 {
+        if let Some(st) = stats.as_deref_mut() {
+            st.executions += 1 << n;
+            st.class("all 2^n answer sequences tried");
+        }
+        for mask in 0u32..(1u32 << n) {
+            let sc = dv_core::trace::Script { answers: (0..n).map(|i| mask & (1 << i) == 0).collect(), default: mask & 1 == 0 };
+            let o = oracles::run(e, &case.payload, src, &sc);
+            if let Err((sig, what)) = oracles::c01(e, &case.payload, &o) {
+                return Verdict::Violation(sig, json!({"what": what, "script": sc.show(), "history": dv_core::trace::show_trace(&o.trace)}));
+            }
+        }
+    }
+    Verdict::Ok
 }
 
 pub fn run(tier: Tier) -> i32 {
@@ -66,7 +81,7 @@ pub fn run(tier: Tier) -> i32 {
         "C01",
         tier,
         "cases = (type from the hand-written + generated catalogue, type-directed payload with 0..n injected faults or type-blind payload, \
-         source serde_json or OV (duplicate keys / non-finite floats via OV only), answer script: all-Continue / all-Break / Continue^k-then-Break / arbitrary); \
+         source serde_json or OV (duplicate keys / non-finite floats via OV only), answer script: all-Continue / all-Break / Continue^k-then-Break / arbitrary; for half of the cases with 2..5 decisions additionally ALL 2^n answer sequences); \
          oracle on the recorded history: Ok => no report and no hand-over happened; Err(e) => ids(e) == all issued report ids, each once; \
          non-trivial = >= 2 reports in the run or a report at depth >= 2; distinct by (type, payload, script)",
         (2_400_000, 40_000_000),
